@@ -9,6 +9,7 @@ import (
 	"strings"
 	"time"
 
+	"github.com/shopspring/decimal"
 	"github.com/tyler-sommer/stick"
 
 	"verif/core"
@@ -184,7 +185,7 @@ type cx struct {
 func (e *cx) print() string {
 	p := func(k *cx) string {
 		switch k.kind {
-		case "lit", "name", "arr", "hash", "call", "interp":
+		case "lit", "name", "arr", "hash", "hashp", "call", "interp":
 			return k.print()
 		}
 		return "(" + k.print() + ")"
@@ -206,6 +207,8 @@ func (e *cx) print() string {
 		return "[" + strings.Join(parts, ", ") + "]"
 	case "hash":
 		return "{" + e.op + ": " + e.kids[0].print() + "}"
+	case "hashp": // the key is an expression in parentheses: the value of the variable kn
+		return "{(kn): " + e.kids[0].print() + ", (kn ~ '2'): 'second'}"
 	case "dot":
 		return p(e.kids[0]) + "." + e.op
 	case "idx":
@@ -317,6 +320,8 @@ func (r *c05Ref) eval(e *cx) rv {
 		return rv{k: vArr, arr: a}
 	case "hash":
 		return rHash1(e.op, r.eval(e.kids[0]))
+	case "hashp":
+		return rv{k: vHash, hk: []string{"dyn", "dyn2"}, hv: []rv{r.eval(e.kids[0]), rStr("second")}}
 	case "dot", "idx":
 		c := r.eval(e.kids[0])
 		var key rv
@@ -571,6 +576,8 @@ func c05Leaves() []c05Leaf {
 		{"true", rBool(true), true}, {"false", rBool(false), false}, {"null", rv{}, nil},
 		{"[1, 2]", rArr(rNum(1), rNum(2)), []stick.Value{1, 2}}, {"['a']", rArr(rStr("a")), []string{"a"}}, {"[]", rArr(), []stick.Value{}},
 		{"{'k': 1}", rHash1("k", rNum(1)), map[string]stick.Value{"k": 1}},
+		// numbers carried by decimal.Decimal (a type with a String method): zero, negative, positive
+		{"0", rNum(0), decimal.Zero}, {"(-1.5)", rNum(-1.5), decimal.New(-15, -1)}, {"2.25", rNum(2.25), decimal.New(225, -2)},
 	}
 }
 
@@ -592,6 +599,7 @@ func c05Operands() ([]*cx, map[string]stick.Value) {
 		ctx[name] = l.gv
 		ops = append(ops, &cx{kind: "name", v: l.v, src: name})
 	}
+	ctx["kn"] = "dyn" // the name of a hash key held by a variable: {(kn): x}
 	return ops, ctx
 }
 
@@ -741,6 +749,14 @@ func c05Decode(n []int, p *int) *cx {
 		return &cx{kind: "interp", kids: kids}
 	case 14:
 		return &cx{kind: "dot", op: "0", kids: []*cx{next()}}
+	case 15:
+		return &cx{kind: "hashp", kids: []*cx{next()}}
+	case 16:
+		return &cx{kind: "dot", op: "dyn", kids: []*cx{next()}}
+	case 17:
+		return &cx{kind: "dot", op: "dyn2", kids: []*cx{next()}}
+	case 18:
+		return &cx{kind: "dot", op: "kn", kids: []*cx{next()}}
 	}
 	panic("bad term encoding")
 }
@@ -1101,6 +1117,9 @@ func c05Levels(tier string) []core.Level {
 				}
 				emit(core.Case{Fam: "term", N: []int{4, 0, i}})
 				emit(core.Case{Fam: "term", N: []int{7, 6, 0, i}})                // {k: x}.k
+				emit(core.Case{Fam: "term", N: []int{16, 15, 0, i}})              // {(kn): x, (kn ~ '2'): 'second'}.dyn - the key is the variable's value
+				emit(core.Case{Fam: "term", N: []int{17, 15, 0, i}})              // ....dyn2
+				emit(core.Case{Fam: "term", N: []int{9, 1, 15, 0, i}})            // r({(kn): x, ..}): the callback receives the hash with the evaluated keys
 				emit(core.Case{Fam: "term", N: []int{8, 6, 0, i, 0, 18}})         // {k: x}['k'] via 'k'? operand 18 = 'a'.. uses key a: missing
 				emit(core.Case{Fam: "term", N: []int{8, 4, 0, i, 0, 0}})          // [x][0]
 				emit(core.Case{Fam: "term", N: []int{14, 4, 0, i}})               // [x].0
